@@ -91,6 +91,9 @@ type F struct {
 	escapeCache map[string]bool
 	// Summaries: extra facts for the false/true result of a module call (availability guards).
 	CallFacts func(call *ssa.Call, result bool) []Fact
+	// ResultFacts lets the client state facts about the integer result of a module call (a summary of the callee proved
+	// separately): unconditional facts over the result atom, and conditional ones (guard >= 0 implies fact).
+	ResultFacts func(call *ssa.Call, result Lin) (always []Fact, when []CondFact)
 	// NonNeg: values that are non-negative by an invariant proved elsewhere (e.g. the writer's byte counter, C20-COUNT).
 	NonNeg func(v ssa.Value) bool
 }
@@ -1063,6 +1066,16 @@ func (p *F) atomFacts(forms []Lin, known []Fact) ([]Fact, []condFact) {
 				call = nil
 			}
 		}
+		if cl, isCall := v.(*ssa.Call); isCall && p.ResultFacts != nil && isInt(cl.Type()) {
+			always, when := p.ResultFacts(cl, Atom(a))
+			out = append(out, always...)
+			for _, w := range when {
+				conds = append(conds, condFact{guard: w.Guard, f: w.F})
+				for t := range w.F.L.T {
+					visit(t)
+				}
+			}
+		}
 		if call != nil {
 			if cal := call.Call.StaticCallee(); cal != nil && cal.Pkg != nil {
 				full := cal.Pkg.Pkg.Path() + "." + cal.Name()
@@ -1104,6 +1117,12 @@ func (p *F) atomFacts(forms []Lin, known []Fact) ([]Fact, []condFact) {
 type condFact struct {
 	guard Lin
 	f     Fact
+}
+
+// CondFact is a conditional fact supplied by the client: Guard >= 0 implies F.
+type CondFact struct {
+	Guard Lin
+	F     Fact
 }
 
 // ---------------------------------------------------------------------------------------------
